@@ -1,5 +1,6 @@
 """C16 - polynomial and linear-combination types form the free algebra they denote."""
 import e1_typestate, specs, e8_formulas, e16_polyshort, e24_lex
+import e33_scans
 
 LEVEL = 'other'
 EXPLANATION = ('Typestate dataflow (clean/dirty, must-analysis over the MIR CFG incl. loops) for Lc (no zero coefficient stored) '
@@ -17,6 +18,8 @@ TRUSTED = ['rustc MIR of the current tree', 'container-method preservation table
 
 def run(ctx, rep):
     facts = ctx.facts()
+    rep.rule('E33', e33_scans.__doc__.strip().split('\n')[0])
+    e33_scans.run_for(facts, rep, 'polynomials', ['yui::types::poly'], 2)
     import fixtures
     fixtures.run_controls(rep, ['E1'], lambda: ctx.reload())
     rep.rule('E1', e1_typestate.__doc__.strip().split('\n')[0])
